@@ -446,7 +446,9 @@ class Histogram():
 
     def compute(self):
         """Yield histogram with context."""
-        yield (self._hist, self._cur_context)
+        # deep copy, so that the yielded context is independent
+        # of the filled value and of previously yielded contexts
+        yield (self._hist, copy.deepcopy(self._cur_context))
 
     def reset(self):
         """Reset the histogram.
